@@ -3,6 +3,7 @@ package rules
 import (
 	"fmt"
 	"go/token"
+	"go/types"
 	"sort"
 	"strings"
 
@@ -29,6 +30,7 @@ func runC17(r *engine.Run) {
 	r.Rule("DOM-nodefound", "a node store reports a node as found only for what it holds: MemoryNodeDB.getNode returns a nil error only where its map lookup's found flag tested true; PNodeDB.GetNode decodes only where the fetched bytes tested non-empty (otherwise ErrNodeNotFound)")
 	r.Rule("ORDER-publish", "in insertForeignNode (the per-node step of MergeDB) the node enters the trie's cache and change collector only after PutNode returned a nil error (dominance + error fact): a failed store write is not masked by the cache")
 	r.Rule("WHO-tombstones", "see C03: the layered store's lookups and iteration never consult its delete tombstones (a donor that hides marked nodes from Iterate cannot repair the tries that need them)")
+	r.Rule("DOM-survey", "the recursive survey behind GetAllMissingNodes (the trie method handed the *[]Key list) asks the store for the node of the key it is handed before it can return: every return is dominated by the getNode lookup of that key (no depth cut-off, filter or early return in front of it), and it recurses for the extension child and the branch children")
 	r.NotDec = append(r.NotDec, "exactness of the reported key set for every removal subset")
 	errGetNode(r)
 	depCount(r)
@@ -48,6 +50,7 @@ func runC17(r *engine.Run) {
 	agreeSentinelWrap(r, "AGREE-unwrapped")
 	whoLimit(r, "WHO-limit")
 	whoTombstones(r, "WHO-tombstones")
+	domSurvey(r, "DOM-survey")
 }
 
 // resultValue resolves the i-th result of ret through a named-result cell
@@ -234,13 +237,29 @@ func depCount(r *engine.Run) {
 	if f == nil {
 		return
 	}
-	// the recursive call inside a loop
+	// the recursive call inside a loop: in iterate itself, or in a helper that iterate
+	// hands the child loop to (and that calls iterate back)
 	var rec *ssa.Call
-	engine.Instrs(f, func(in ssa.Instruction) {
-		if c, ok := in.(*ssa.Call); ok && c.Call.StaticCallee() == f && inCycle(c.Block()) {
-			rec = c
+	root := f
+	cands := []*ssa.Function{root}
+	engine.Instrs(root, func(in ssa.Instruction) {
+		if c, ok := in.(*ssa.Call); ok {
+			if g := c.Call.StaticCallee(); g != nil && g != root && len(g.Blocks) > 0 && recvNamed(g) == "MerklePatriciaTrie" {
+				cands = append(cands, g)
+			}
 		}
 	})
+	for _, g := range cands {
+		engine.Instrs(g, func(in ssa.Instruction) {
+			if c, ok := in.(*ssa.Call); ok && c.Call.StaticCallee() == root && inCycle(c.Block()) && rec == nil {
+				rec = c
+				f = g
+			}
+		})
+	}
+	if f != root {
+		r.Touch(f)
+	}
 	if rec == nil {
 		r.Anchor(rule, fmt.Errorf("unresolved anchor: recursive child iteration inside a loop in %s", fn(f)))
 		return
@@ -635,87 +654,112 @@ func agreeSentinelWrap(r *engine.Run, rule string) {
 		return
 	}
 	n := 0
-	o := ord{}
-	engine.Instrs(f, func(in ssa.Instruction) {
+	// iterate and the helpers it hands part of the walk to (they call iterate back)
+	root := f
+	members := []*ssa.Function{root}
+	engine.Instrs(root, func(in ssa.Instruction) {
 		c, ok := in.(*ssa.Call)
-		if !ok || c.Call.StaticCallee() != f {
+		if !ok {
 			return
 		}
-		n++
-		var e ssa.Value = c // single error result
-		bad := ""
-		seen := map[ssa.Value]bool{}
-		var follow func(v ssa.Value)
-		follow = func(v ssa.Value) {
-			if seen[v] {
-				return
-			}
-			seen[v] = true
-			for _, ref := range engine.Referrers(v) {
-				switch x := ref.(type) {
-				case *ssa.Phi:
-					follow(x)
-				case *ssa.MakeInterface:
-					follow(x)
-				case *ssa.ChangeInterface:
-					follow(x)
-				case *ssa.Slice, *ssa.IndexAddr:
-				case *ssa.Store:
-					// into the variadic argument array of a formatting call
-					if ia, ok := x.Addr.(*ssa.IndexAddr); ok {
-						follow(ia.X)
-					}
-				case *ssa.Alloc:
-				case *ssa.Call:
-					sc := x.Call.StaticCallee()
-					if sc != nil && sc.Pkg != nil && (sc.Pkg.Pkg.Path() == "fmt" && sc.Name() == "Errorf" || sc.Pkg.Pkg.Path() == "errors" && (sc.Name() == "Join" || sc.Name() == "New")) {
-						// is the constructed error returned?
-						for _, r2 := range engine.Referrers(x) {
-							if _, isRet := r2.(*ssa.Return); isRet {
-								bad = r.P.Pos(x.Pos())
-							}
-							if ph, isPhi := r2.(*ssa.Phi); isPhi {
-								for _, r3 := range engine.Referrers(ph) {
-									if _, isRet := r3.(*ssa.Return); isRet {
-										bad = r.P.Pos(x.Pos())
-									}
-								}
-							}
-						}
-					}
-				}
-			}
+		g := c.Call.StaticCallee()
+		if g == nil || g == root || len(g.Blocks) == 0 || recvNamed(g) != "MerklePatriciaTrie" {
+			return
 		}
-		follow(e)
-		// the variadic array: new [k]any; stores of iface(e) into its elements; slice passed to Errorf
-		engine.Instrs(f, func(i2 ssa.Instruction) {
-			st, ok := i2.(*ssa.Store)
-			if !ok || !seen[st.Val] {
-				return
-			}
-			ia, ok := st.Addr.(*ssa.IndexAddr)
-			if !ok {
-				return
-			}
-			for _, ref := range engine.Referrers(ia.X) {
-				if sl, ok := ref.(*ssa.Slice); ok {
-					for _, r2 := range engine.Referrers(sl) {
-						if call, ok := r2.(*ssa.Call); ok {
-							if sc := call.Call.StaticCallee(); sc != nil && sc.Pkg != nil && sc.Pkg.Pkg.Path() == "fmt" && sc.Name() == "Errorf" {
-								for _, r3 := range engine.Referrers(call) {
-									if _, isRet := r3.(*ssa.Return); isRet {
-										bad = r.P.Pos(call.Pos())
-									}
-								}
-							}
-						}
-					}
-				}
+		back := false
+		engine.Instrs(g, func(i2 ssa.Instruction) {
+			if c2, ok := i2.(*ssa.Call); ok && c2.Call.StaticCallee() == root {
+				back = true
 			}
 		})
-		r.Check(bad == "", rule, o.next(fn(f)+"|recursive error"), r.P.Pos(c.Pos()), "the error of the recursive walk goes up unchanged",
-			"iterate returns the error of a recursive walk wrapped in a new error ("+bad+"): its callers (the branch arm of iterate, HasMissingNodes) recognise an absent node by comparing with the sentinel errors, so a wrapped ErrMissingNodes / ErrNodeNotFound aborts the walk and the trie is reported as having no missing nodes")
+		if back {
+			members = append(members, g)
+			r.Touch(g)
+		}
 	})
+	for _, f := range members {
+		o := ord{}
+		engine.Instrs(f, func(in ssa.Instruction) {
+			c, ok := in.(*ssa.Call)
+			if !ok || c.Call.StaticCallee() != root {
+				return
+			}
+			n++
+			var e ssa.Value = c // single error result
+			bad := ""
+			seen := map[ssa.Value]bool{}
+			var follow func(v ssa.Value)
+			follow = func(v ssa.Value) {
+				if seen[v] {
+					return
+				}
+				seen[v] = true
+				for _, ref := range engine.Referrers(v) {
+					switch x := ref.(type) {
+					case *ssa.Phi:
+						follow(x)
+					case *ssa.MakeInterface:
+						follow(x)
+					case *ssa.ChangeInterface:
+						follow(x)
+					case *ssa.Slice, *ssa.IndexAddr:
+					case *ssa.Store:
+						// into the variadic argument array of a formatting call
+						if ia, ok := x.Addr.(*ssa.IndexAddr); ok {
+							follow(ia.X)
+						}
+					case *ssa.Alloc:
+					case *ssa.Call:
+						sc := x.Call.StaticCallee()
+						if sc != nil && sc.Pkg != nil && (sc.Pkg.Pkg.Path() == "fmt" && sc.Name() == "Errorf" || sc.Pkg.Pkg.Path() == "errors" && (sc.Name() == "Join" || sc.Name() == "New")) {
+							// is the constructed error returned?
+							for _, r2 := range engine.Referrers(x) {
+								if _, isRet := r2.(*ssa.Return); isRet {
+									bad = r.P.Pos(x.Pos())
+								}
+								if ph, isPhi := r2.(*ssa.Phi); isPhi {
+									for _, r3 := range engine.Referrers(ph) {
+										if _, isRet := r3.(*ssa.Return); isRet {
+											bad = r.P.Pos(x.Pos())
+										}
+									}
+								}
+							}
+						}
+					}
+				}
+			}
+			follow(e)
+			// the variadic array: new [k]any; stores of iface(e) into its elements; slice passed to Errorf
+			engine.Instrs(f, func(i2 ssa.Instruction) {
+				st, ok := i2.(*ssa.Store)
+				if !ok || !seen[st.Val] {
+					return
+				}
+				ia, ok := st.Addr.(*ssa.IndexAddr)
+				if !ok {
+					return
+				}
+				for _, ref := range engine.Referrers(ia.X) {
+					if sl, ok := ref.(*ssa.Slice); ok {
+						for _, r2 := range engine.Referrers(sl) {
+							if call, ok := r2.(*ssa.Call); ok {
+								if sc := call.Call.StaticCallee(); sc != nil && sc.Pkg != nil && sc.Pkg.Pkg.Path() == "fmt" && sc.Name() == "Errorf" {
+									for _, r3 := range engine.Referrers(call) {
+										if _, isRet := r3.(*ssa.Return); isRet {
+											bad = r.P.Pos(call.Pos())
+										}
+									}
+								}
+							}
+						}
+					}
+				}
+			})
+			r.Check(bad == "", rule, o.next(fn(f)+"|recursive error"), r.P.Pos(c.Pos()), "the error of the recursive walk goes up unchanged",
+				"iterate returns the error of a recursive walk wrapped in a new error ("+bad+"): its callers (the branch arm of iterate, HasMissingNodes) recognise an absent node by comparing with the sentinel errors, so a wrapped ErrMissingNodes / ErrNodeNotFound aborts the walk and the trie is reported as having no missing nodes")
+		})
+	}
 	if n < 2 {
 		r.Anchor(rule, fmt.Errorf("unresolved anchor: only %d recursive calls in iterate", n))
 	}
@@ -783,4 +827,105 @@ func whoLimit(r *engine.Run, rule string) {
 	}
 	r.Check(bad == "", rule, "MPTMaxAllowableNodeSize|used for the inserted value only", r.P.Pos(insert.Pos()), "the size limit is applied in Insert (or its guard helper) only",
 		"the value size limit is also applied in "+bad+": an encoded node is larger than the value Insert measured, so a node Insert accepted is refused there - a repair from another store stops at that node and the trie keeps missing nodes")
+}
+
+// domSurvey: GetAllMissingNodes reports what its recursive survey (the trie
+// method that is handed the *[]Key result list) collects. The survey can only
+// report an absent node it asked the store for: every return of the survey
+// function is dominated by the lookup (getNode) of the key it was handed - no
+// depth cut-off, filter or early return before the node is read - and each of
+// its recursive calls sits in the arm of a child-carrying node type (extension
+// child, branch children), so that every child key is handed on.
+func domSurvey(r *engine.Run, rule string) {
+	entry := r.Fn(rule, pkgUtil, "MerklePatriciaTrie", "GetAllMissingNodes")
+	getNode := r.Fn(rule, pkgUtil, "MerklePatriciaTrie", "getNode")
+	if entry == nil || getNode == nil {
+		return
+	}
+	// the survey: a trie method called from the entry (directly) that takes a *[]Key
+	var survey *ssa.Function
+	engine.Instrs(entry, func(in ssa.Instruction) {
+		c, ok := in.(*ssa.Call)
+		if !ok {
+			return
+		}
+		g := c.Call.StaticCallee()
+		if g == nil || g.Pkg != entry.Pkg {
+			return
+		}
+		for _, p := range g.Params {
+			if pt, ok := p.Type().(*types.Pointer); ok {
+				if sl, ok := pt.Elem().Underlying().(*types.Slice); ok && strings.HasSuffix(sl.Elem().String(), "Key") {
+					survey = g
+				}
+			}
+		}
+	})
+	if survey == nil || len(survey.Blocks) == 0 {
+		r.Anchor(rule, fmt.Errorf("unresolved anchor: survey function (trie method with a *[]Key parameter) called from GetAllMissingNodes"))
+		return
+	}
+	r.Touch(survey)
+	// key parameter: the first parameter of type Key
+	var key ssa.Value
+	for _, p := range survey.Params {
+		if strings.HasSuffix(p.Type().String(), "Key") {
+			key = p
+			break
+		}
+	}
+	var lookups []*ssa.Call
+	engine.Instrs(survey, func(in ssa.Instruction) {
+		if c, ok := in.(*ssa.Call); ok && c.Call.StaticCallee() == getNode {
+			for _, a := range c.Call.Args {
+				if a == key {
+					lookups = append(lookups, c)
+				}
+			}
+		}
+	})
+	if key == nil || len(lookups) == 0 {
+		r.Anchor(rule, fmt.Errorf("unresolved anchor: lookup of the surveyed key in %s", fn(survey)))
+		return
+	}
+	o := ord{}
+	n := 0
+	for _, ret := range engine.Returns(survey) {
+		if ret.Block().Comment == "recover" {
+			continue
+		}
+		n++
+		good := false
+		for _, l := range lookups {
+			if l.Block() == ret.Block() || l.Block().Dominates(ret.Block()) {
+				good = true
+			}
+		}
+		r.Check(good, rule, o.next(fn(survey)+"|return after lookup"), r.P.Pos(ret.Pos()), "the return is reached only after the node of the surveyed key was asked for",
+			"the survey of missing nodes can return before it asked the store for the node of the key it was handed (cut-off, filter or early return): an absent node below that point is never reported, so GetAllMissingNodes hands back an incomplete (or empty) list with a nil error and a repair driven by it leaves nodes absent")
+	}
+	if n < 2 {
+		r.Anchor(rule, fmt.Errorf("unresolved anchor: only %d returns in %s", n, fn(survey)))
+	}
+	// recursion: at least one recursive call fed by an extension's child key and one by a branch child
+	rec := 0
+	countRec := func(g *ssa.Function) {
+		engine.Instrs(g, func(in ssa.Instruction) {
+			if c, ok := in.(*ssa.Call); ok && c.Call.StaticCallee() == survey {
+				rec++
+			}
+		})
+	}
+	countRec(survey)
+	// the child loops may live in a helper of the trie that calls the survey back
+	engine.Instrs(survey, func(in ssa.Instruction) {
+		if c, ok := in.(*ssa.Call); ok {
+			if g := c.Call.StaticCallee(); g != nil && g != survey && g != getNode && g.Pkg == survey.Pkg && len(g.Blocks) > 0 && recvNamed(g) == recvNamed(survey) {
+				r.Touch(g)
+				countRec(g)
+			}
+		}
+	})
+	r.Check(rec >= 2, rule, fn(survey)+"|recursion", r.P.Pos(survey.Pos()), fmt.Sprintf("%d recursive calls (extension child, branch children)", rec),
+		fmt.Sprintf("the survey recurses at %d site(s) only: the children of extension or branch nodes are not surveyed", rec))
 }
